@@ -8,11 +8,14 @@
 package schema
 
 import (
+	"encoding"
+	"encoding/json"
 	"fmt"
 	"net/url"
 	"reflect"
 	"strconv"
 	"strings"
+	"time"
 
 	"github.com/getkin/kin-openapi/openapi3"
 )
@@ -207,6 +210,9 @@ func (g *Generator) generateFieldSchemaWithRefs(t reflect.Type, field reflect.St
 	for t.Kind() == reflect.Ptr {
 		t = t.Elem()
 	}
+	if wk := wellKnownSchema(t); wk != nil {
+		return wk
+	}
 
 	switch t.Kind() {
 	case reflect.Struct:
@@ -258,6 +264,9 @@ func (g *Generator) generateTypeSchemaWithRefs(t reflect.Type) *openapi3.Schema 
 	for t.Kind() == reflect.Ptr {
 		t = t.Elem()
 	}
+	if wk := wellKnownSchema(t); wk != nil {
+		return wk
+	}
 
 	switch t.Kind() {
 	case reflect.Slice, reflect.Array:
@@ -291,6 +300,38 @@ func refToken(token string) string {
 // defsRef returns the "$ref" value pointing at the $defs entry stored under typeName.
 func defsRef(typeName string) string {
 	return "#/$defs/" + refToken(typeName)
+}
+
+var (
+	timeType          = reflect.TypeOf(time.Time{})
+	jsonNumberType    = reflect.TypeOf(json.Number(""))
+	jsonMarshalerType = reflect.TypeOf((*json.Marshaler)(nil)).Elem()
+	textMarshalerType = reflect.TypeOf((*encoding.TextMarshaler)(nil)).Elem()
+)
+
+// wellKnownSchema returns the schema of a type whose JSON encoding is not derived from its Go
+// kind, or nil for every other type. t must already be dereferenced. The cases mirror
+// encoding/json: time.Time is an RFC 3339 string, json.Number a number, an interface value and a
+// json.Marshaler (json.RawMessage among them) any JSON value, an encoding.TextMarshaler a string
+// and a byte slice a base64 string.
+func wellKnownSchema(t reflect.Type) *openapi3.Schema {
+	switch {
+	case t == timeType:
+		return openapi3.NewDateTimeSchema()
+	case t == jsonNumberType:
+		return &openapi3.Schema{Type: &openapi3.Types{openapi3.TypeNumber}}
+	case t.Kind() == reflect.Interface:
+		return &openapi3.Schema{}
+	case t.Implements(jsonMarshalerType) || reflect.PointerTo(t).Implements(jsonMarshalerType):
+		return &openapi3.Schema{}
+	case t.Implements(textMarshalerType) || reflect.PointerTo(t).Implements(textMarshalerType):
+		return openapi3.NewStringSchema()
+	case t.Kind() == reflect.Slice && t.Elem().Kind() == reflect.Uint8:
+		if p := reflect.PointerTo(t.Elem()); !p.Implements(jsonMarshalerType) && !p.Implements(textMarshalerType) {
+			return openapi3.NewBytesSchema()
+		}
+	}
+	return nil
 }
 
 // getTypeName returns a readable type name for use in $defs.
@@ -379,6 +420,9 @@ func convertTypeWithDepthLimit(t reflect.Type, visited map[reflect.Type]*openapi
 		schema := openapi3.NewObjectSchema()
 		schema.Description = "Depth limit reached"
 		return schema
+	}
+	if wk := wellKnownSchema(t); wk != nil {
+		return wk
 	}
 
 	switch t.Kind() {
@@ -483,6 +527,9 @@ func convertReflectTypeToSchemaWithVisited(t reflect.Type, visited map[reflect.T
 	originalType := t
 	for t.Kind() == reflect.Ptr {
 		t = t.Elem()
+	}
+	if wk := wellKnownSchema(t); wk != nil {
+		return wk
 	}
 
 	// Only check for cycles with struct types, as primitive types should always create new instances
@@ -868,6 +915,9 @@ func (g *NestedRefGenerator) generateSchema(t reflect.Type) *openapi3.Schema {
 	// Dereference pointers
 	for t.Kind() == reflect.Ptr {
 		t = t.Elem()
+	}
+	if wk := wellKnownSchema(t); wk != nil {
+		return wk
 	}
 
 	// Primitive types: always expand, never use $ref
